@@ -49,7 +49,10 @@ def parts(quick):
         P.append(("odd", cfg(ODD_ATOMS + ("dot", "empty"), ("a", "c0"), ("cap", "r2"), ("cat",), 1, "AP_std", ("", "i", "s"), ("plain",), ALONE,
                              ops=("=~",)), None, None))
         # the named classes next to single-valued text and alone ( s-\d , \ds , \d ): shared tables
-        P.append(("named", cfg(("d10", "w63", "lower", "sdash", "a"), ("d10", "sdash", "a", "lower"), ("cap", "r2"), ("cat", "alt"), 1, "AP_one", ("",), ("plain",), ALONE, maxcard=700),
+        P.append(("named", cfg(("d10", "w63", "lower", "sdash", "a", "lat2", "latdm", "lat80"), ("d10", "sdash", "a", "lower", "caf", "lat2"), ("cap", "r2"), ("cat", "alt"), 1, "AP_one", ("",), ("plain",), ALONE, maxcard=700),
+                  None, None))
+        # alternations of separately anchored branches, one of them empty
+        P.append(("altanch", cfg(("a", "ab", "c3", "empty"), ("cd", "c3"), ("cap", "quest"), ("cat", "alt"), 1, "AP_std", ("", "m"), ("altempty", "emptyalt", "altanch"), ALONE),
                   None, None))
         # anchors inside the expression, next to literals (two constructor applications: a $ b)
         P.append(("inanch", cfg(("a", "ab", "eot", "bot", "empty"), ("a", "eot", "bot", "eol", "dollar"), ("cap",), ("cat",), 2, "AP_std", ("", "m"), ("plain",), ALONE),
@@ -72,7 +75,9 @@ def parts(quick):
                                 ("capall", "grpall", "inner", "altun", "trail"), ALONE), None, None))
         for k, pre in enumerate(("", "i", "s", "m")):
             P.append(("odd_%d" % k, cfg(ODD_ATOMS, ("a", "c2", "c0"), UN_ALL, ("cat", "alt"), 1, "AP_std", (pre,), ("plain",), ALONE), None, None))
-        P.append(("named", cfg(("d10", "w63", "lower", "sdash", "a", "ab"), ("d10", "sdash", "a", "lower", "w63"), ("cap", "r2", "quest"), ("cat", "alt"), 2, "AP_std", ("", "i"), ("plain",), ALONE, maxcard=700),
+        P.append(("named", cfg(("d10", "w63", "lower", "sdash", "a", "ab", "lat2", "latdm", "lat80"), ("d10", "sdash", "a", "lower", "w63", "caf", "lat2"), ("cap", "r2", "quest"), ("cat", "alt"), 2, "AP_std", ("", "i"), ("plain",), ALONE, maxcard=700),
+                  None, None))
+        P.append(("altanch", cfg(("a", "ab", "c3", "Iab", "empty", "foo"), ("cd", "c3", "a"), ("cap", "quest", "r2"), ("cat", "alt"), 2, "AP_core", ("", "m", "i"), ("altempty", "emptyalt", "altanch"), ALONE),
                   None, None))
         P.append(("inanch", cfg(("a", "ab", "c2", "eot", "bot", "eol", "bol", "empty"), ("a", "eot", "bot", "eol", "bol", "dollar", "c2"), ("cap", "quest"), ("cat", "alt"), 2,
                                 "AP_std", ("", "m", "i"), ("plain",), ALONE), None, None))
